@@ -65,6 +65,8 @@ type (
 
 		fuzzyModel *fuzzy.Model
 
+		fuzzyModelMaxLen int
+
 		concurrencySemaphore chan struct{}
 		taskCallCount        map[string]*int32
 		mkdirMutexMap        map[string]*sync.Mutex
